@@ -585,3 +585,18 @@ v("c09-block-escape-test-in-local", "C09", "BLOCK-STEPS", L + "lexer.py",
   "            if char == \"\\\\\" and body[position + 1 : position + 4] == '\"\"\"':\n",
   "            following = body[position + 1 : position + 4]\n            if char == \"\\\\\" and following == '\"\"\"':\n",
   expect="silent")
+
+# -- round 4: C08 ------------------------------------------------------------------------------------------
+v("c08-single-line-depends-on-length", "C08", "BLOCK-PRINT-TABLE", L + "block_string.py",
+  "    is_single_line = num_lines == 1\n", "    is_single_line = num_lines == 1 and len(value) <= 70\n")
+v("c08-block-flags-reordered", "C08", "BLOCK-PRINT-TABLE", L + "block_string.py",
+  "    skip_leading_new_line = is_single_line and value and value[0] in \" \\t\"\n    before = (\n        \"\\n\"\n        if (print_as_multiple_lines and not skip_leading_new_line)\n        or force_leading_new_line\n        else \"\"\n    )\n",
+  "    starts_blank = value and value[0] in \" \\t\"\n    keep_first_line = is_single_line and starts_blank\n    before = \"\"\n    if force_leading_new_line or (print_as_multiple_lines and not keep_first_line):\n        before = \"\\n\"\n",
+  expect="silent")
+v("c08-interface-extension-comma", "C08", "LIST-SEPARATORS", L + "printer.py",
+  "                \"extend interface\",\n                node.name,\n                wrap(\"implements \", join(node.interfaces, \" & \")),",
+  "                \"extend interface\",\n                node.name,\n                wrap(\"implements \", join(node.interfaces, \", \")),")
+v("c08-union-members-newline-pipe", "C08", "LIST-SEPARATORS", L + "printer.py",
+  "                wrap(\"= \", join(node.types, \" | \")),\n            ),\n            \" \",\n        )\n\n    @staticmethod\n    def leave_enum_type_definition",
+  "                wrap(\"= \", join(node.types, \"\\n  | \")),\n            ),\n            \" \",\n        )\n\n    @staticmethod\n    def leave_enum_type_definition",
+  expect="silent")
